@@ -21,6 +21,7 @@ E == Trace[l]
 IsEv(e) == l <= Len(Trace) /\ Trace[l].ev = e
 Adv == l' = l + 1
 NoFlag == UNCHANGED bad
+Closing == \E o \in bad : o[2] = "closing"     \* the harness is winding the run down (marker set at obs.closing)
 Keep == UNCHANGED <<pendUpd, lastProbeMs, updDone>>
 SetOf(s) == {s[i] : i \in 1..Len(s)}
 InCallers(k) == k \in Callers
@@ -41,7 +42,8 @@ TrReset ==
     /\ cst' = [k \in Callers |-> "idle"] /\ croute' = [k \in Callers |-> NoAddr] /\ cerr' = [k \in Callers |-> "none"]
     /\ cvia' = [k \in Callers |-> "none"] /\ closed' = FALSE /\ fallback' = 0 /\ probes' = {}
     /\ health' = [a \in Addrs |-> FALSE] /\ director' = NoAddr /\ rrHist' = <<>> /\ probedSinceTick' = FALSE
-    /\ Untouched /\ Adv /\ NoFlag /\ pendUpd' = {} /\ lastProbeMs' = -1000 /\ updDone' = TRUE
+    /\ Untouched /\ Adv /\ pendUpd' = {} /\ lastProbeMs' = -1000 /\ updDone' = TRUE
+    /\ bad' = {o \in bad : o[2] # "closing"}      \* (the wind-down marker of the previous run goes; flags stay)
 
 TrApiUpdate == IsEv("api.update") /\ pendUpd' = ParseSet(E.k) /\ updDone' = FALSE /\ UNCHANGED <<vars, lastProbeMs>> /\ Adv /\ NoFlag
 \* Update has returned: the new target set must be in force (whatever duplicates / empty strings the argument list had)
@@ -78,7 +80,9 @@ TrDetect ==
     /\ bad' = bad \cup (IF fallback = 0 /\ list # <<>> /\ waiters' # {} THEN {<<l, "notreleased">>} ELSE {})
                   \* every pass probes every target that is marked unreachable (and no other)
                   \* (not judged once the Client is closed: the recording of the run ends there, a pass still under way is cut off)
-                  \cup (IF ~closed /\ E.m # MaskOf({x \in targets : ~talive[x]}, 1) THEN {<<l, "probeset">>} ELSE {})
+                  \* (nor while the harness winds the run down: a call completing beside an unsequenced pass marks its target
+                  \*  a moment before its k.ewma.out event is recorded)
+                  \cup (IF ~closed /\ ~Closing /\ E.m # MaskOf({x \in targets : ~talive[x]}, 1) THEN {<<l, "probeset">>} ELSE {})
     /\ Adv /\ Keep
 
 \* probe completion: E.a address, E.b generation of the probed target object, E.s alive, E.seq list length afterwards
@@ -242,7 +246,9 @@ TrApiRet ==
                    rrHist, probedSinceTick>>
     /\ Untouched /\ Adv /\ Keep
 
-TrObsClosing == IsEv("obs.closing") /\ UNCHANGED <<vars, pendUpd, lastProbeMs, updDone>> /\ Adv /\ NoFlag
+\* the harness has opened all its gates and is about to close the Client: from here on calls, probes and detector passes run
+\* unsequenced (marker in `bad`, not a flag of any property)
+TrObsClosing == IsEv("obs.closing") /\ bad' = bad \cup {<<l, "closing">>} /\ UNCHANGED <<vars, pendUpd, lastProbeMs, updDone>> /\ Adv
 TrObsEnd ==     \* E.a callers still blocked 1.5 s after Close
     /\ IsEv("obs.end")
     /\ bad' = bad \cup (IF E.a # 0 THEN {<<l, "stranded">>} ELSE {})
